@@ -116,6 +116,11 @@ type GOpt struct {
 	CutInstr func(ssa.Instruction) bool
 	// NoVacuity: do not demand that each clause has at least one establishing edge.
 	NoVacuity bool
+	// Deep: the sink may be the return instruction of a helper the traversal descends into.
+	Deep bool
+	// Descend: follow local helpers although a CutEdge is given (the caller vouches that it only
+	// compares blocks by identity or tests branch conditions).
+	Descend bool
 }
 
 func (c *Ctx) Guarded(construct string, fn *ssa.Function, sink ssa.Instruction, clauses []Clause, opt *GOpt) bool {
@@ -131,11 +136,15 @@ func (c *Ctx) Guarded(construct string, fn *ssa.Function, sink ssa.Instruction, 
 				n += CountAtomEdges(fn, a)
 			}
 			if n == 0 {
+				// the alternatives of the clause established together behind a helper
+				n = CountClauseEdges(fn, cl)
+			}
+			if n == 0 {
 				c.Undecided(construct, sink.Pos(), fmt.Sprintf("gate [%s] not recognised anywhere in %s (refactored behind a call? the rule cannot see it)", cl, SSAFuncName(fn)))
 				return false
 			}
 		}
-		q := ReachQ{Fn: fn, From: opt.From, Sink: SinkIs(sink), CutEdge: OrCutEdges(AtomEdges(cl...), opt.CutEdge), CutInstr: opt.CutInstr}
+		q := ReachQ{Fn: fn, From: opt.From, Sink: SinkIs(sink), CutEdge: OrCutEdges(AtomEdges(cl...), opt.CutEdge), CutInstr: opt.CutInstr, SinkDeep: opt.Deep, Descend: opt.CutEdge == nil || opt.Descend}
 		r := q.Run()
 		c.cur.Blocks += r.Blocks
 		c.cur.Edges += r.Edges
@@ -170,7 +179,7 @@ func (c *Ctx) Before(construct string, fn *ssa.Function, a func(ssa.Instruction)
 		opt = &GOpt{}
 	}
 	c.touch(fn)
-	q := ReachQ{Fn: fn, From: opt.From, Sink: SinkIs(b), CutInstr: a, CutEdge: opt.CutEdge}
+	q := ReachQ{Fn: fn, From: opt.From, Sink: SinkIs(b), CutInstr: a, CutEdge: opt.CutEdge, Descend: opt.CutEdge == nil || opt.Descend}
 	r := q.Run()
 	c.cur.Blocks += r.Blocks
 	c.cur.Edges += r.Edges
@@ -477,7 +486,7 @@ func (c *Ctx) Try(fn *ssa.Function, sink ssa.Instruction, clauses []Clause, opt 
 		if n == 0 {
 			return false
 		}
-		q := ReachQ{Fn: fn, From: opt.From, Sink: SinkIs(sink), CutEdge: OrCutEdges(AtomEdges(cl...), opt.CutEdge), CutInstr: opt.CutInstr}
+		q := ReachQ{Fn: fn, From: opt.From, Sink: SinkIs(sink), CutEdge: OrCutEdges(AtomEdges(cl...), opt.CutEdge), CutInstr: opt.CutInstr, Descend: opt.CutEdge == nil || opt.Descend}
 		if q.Run().Found {
 			return false
 		}
